@@ -11,6 +11,15 @@
 //   havoc x
 //   select x <C> <E1> <E2>
 //   unreachable
+// Boolean statements (boolean variables b0, b1, ... of crab::BOOL_TYPE are created on first use; <b> = number):
+//   bassign <b> <C>        b := linear constraint
+//   bcopy <b> <b'> | bnot <b> <b'>            b := b' | b := not b'
+//   bbin and|or|xor <b> <b1> <b2>
+//   bselect <b> <c> <b1> <b2>                 b := c ? b1 : b2
+//   bassume <b> | bnassume <b>                assume(b) | assume(not b)
+//   bassert <b> <id>       id = unique debug line number (as for assert)
+//   bhavoc <b>
+//   bzext <x> <b>          x := zext(b)   (integer variable x becomes 0 / 1)
 // Edges are added in the order given (this fixes successor / predecessor order).
 #pragma once
 #include "crab_lang.hpp"
@@ -38,6 +47,15 @@ struct program {
   unsigned nblocks = 0, nvars = 0;
   long exit_block = -1;
   std::vector<std::pair<std::string, std::string>> opts;
+  std::vector<z_var> bools;   // boolean variables b0, b1, ...: created on first use (after all integer variables)
+  z_var bvar(long i) {
+    if (i < 0) { std::cerr << "cfgtext: parse error\n"; std::exit(3); }
+    while ((long)bools.size() <= i) {
+      std::string n = "b" + std::to_string(bools.size());
+      bools.push_back(z_var(vfac[n], crab::BOOL_TYPE, 1));
+    }
+    return bools[i];
+  }
   std::string opt(const std::string &k, const std::string &def) const {
     for (auto &kv : opts) if (kv.first == k) return kv.second;
     return def;
@@ -97,6 +115,23 @@ inline void add_stmt(program &P, z_basic_block_t &b, tok &k) {
   else if (op == "havoc") { long x = k.nexti(); b.havoc(P.vars[x]); }
   else if (op == "select") { long x = k.nexti(); cst_t c = parse_cst(P, k); lin_t e1 = parse_exp(P, k); lin_t e2 = parse_exp(P, k); b.select(P.vars[x], c, e1, e2); }
   else if (op == "unreachable") { b.unreachable(); }
+  else if (op == "bassign") { z_var x = P.bvar(k.nexti()); cst_t c = parse_cst(P, k); b.bool_assign(x, c); }
+  else if (op == "bcopy") { z_var x = P.bvar(k.nexti()); z_var y = P.bvar(k.nexti()); b.bool_assign(x, y, false); }
+  else if (op == "bnot") { z_var x = P.bvar(k.nexti()); z_var y = P.bvar(k.nexti()); b.bool_not_assign(x, y); }
+  else if (op == "bbin") {
+    std::string o = k.next(); z_var x = P.bvar(k.nexti()); z_var y = P.bvar(k.nexti()); z_var z = P.bvar(k.nexti());
+    if (o == "and") b.bool_and(x, y, z); else if (o == "or") b.bool_or(x, y, z); else if (o == "xor") b.bool_xor(x, y, z);
+    else { std::cerr << "cfgtext: unknown boolean operator " << o << "\n"; std::exit(3); }
+  }
+  else if (op == "bselect") { z_var x = P.bvar(k.nexti()); z_var c = P.bvar(k.nexti()); z_var y = P.bvar(k.nexti()); z_var z = P.bvar(k.nexti()); b.bool_select(x, c, y, z); }
+  else if (op == "bassume") { b.bool_assume(P.bvar(k.nexti())); }
+  else if (op == "bnassume") { b.bool_not_assume(P.bvar(k.nexti())); }
+  else if (op == "bassert") {
+    z_var x = P.bvar(k.nexti()); long id = k.nexti();
+    b.bool_assert(x, crab::cfg::debug_info("prog", (unsigned)id, 0, (int64_t)id));
+  }
+  else if (op == "bhavoc") { b.havoc(P.bvar(k.nexti())); }
+  else if (op == "bzext") { long x = k.nexti(); b.zext(P.bvar(k.nexti()), P.vars[x]); }
   else { std::cerr << "cfgtext: unknown statement " << op << "\n"; std::exit(3); }
 }
 
